@@ -179,22 +179,30 @@ def from_text(schema, tq, t, text):
 # ------------------------------------------------------------------ encoder
 
 class Codec(object):
-    def __init__(self, schema, ir, rng=None):
+    def __init__(self, schema, ir, rng=None, strict=True):
         self.S = schema
         self.ir = ir
         self.rng = rng
+        self.strict = strict      # False: encode non-conformant requests too (validation checks)
 
     def _coin(self):
         return self.rng is not None and self.rng.random() < .5
 
     def enc_member(self, parent, decl, t, v):
         """Encode value v (tspec t) as occurrence(s) of the declared element."""
+        from vflib.refval import NIL
         if 'seq' in t:
-            items = v or []
-            if len(items) < decl['min'] or len(items) > decl['max']:
+            items = [NIL] if v is NIL else (v or [])
+            if self.strict and (len(items) < decl['min'] or len(items) > decl['max']):
                 raise NotConformant('occurrence count %d outside [%d,%d]' % (len(items), decl['min'], decl['max']))
             for it in items:
                 self.enc_one(parent, decl, t['seq'], it)
+            return
+        if v is NIL:
+            el = etree.SubElement(parent, Q(decl['ns'], decl['name']))
+            el.set(Q(XSI, 'nil'), 'true')
+            return
+        if v is None and not self.strict:
             return
         if v is None:
             if decl['min'] == 0 and (not decl['nillable'] or self._coin()):
@@ -209,9 +217,10 @@ class Codec(object):
         self.enc_one(parent, decl, t, v)
 
     def enc_one(self, parent, decl, t, v):
+        from vflib.refval import NIL
         el = etree.SubElement(parent, Q(decl['ns'], decl['name']))
-        if v is None:
-            if not decl['nillable']:
+        if v is None or v is NIL:
+            if self.strict and not decl['nillable']:
                 raise NotConformant('nil item in non-nillable position')
             el.set(Q(XSI, 'nil'), 'true')
             return el
@@ -222,17 +231,18 @@ class Codec(object):
         S = self.S
         if 'attr' in t or 'xmldata' in t:
             raise SchemaMismatch('attribute/xmldata outside a complex type')
+        from vflib.refval import Raw, NIL
         if 'prim' in t or 'enum' in t:
             if not S.is_simple(tq):
                 raise SchemaMismatch('primitive published as complex type %s' % tq)
-            el.text = to_text(S, tq, t, v)
+            el.text = v.text if isinstance(v, Raw) else to_text(S, tq, t, v)
             return
         if 'array' in t:
             attrs, elems, simple = S.content(tq)
             if len(elems) != 1 or attrs or simple is not None:
                 raise SchemaMismatch('array type %s does not have exactly one member element' % tq)
             d = elems[0]
-            if len(v) < d['min'] or len(v) > d['max']:
+            if self.strict and (len(v) < d['min'] or len(v) > d['max']):
                 raise NotConformant('array length outside member occurrence bounds')
             for it in v:
                 self.enc_one(el, d, t['array'], it)
@@ -257,14 +267,18 @@ class Codec(object):
                     a = byname_a.get(fn)
                     if a is None:
                         raise SchemaMismatch('attribute %s not published on %s' % (fn, tq))
-                    if v.get(fn) is not None:
+                    if isinstance(v.get(fn), Raw):
+                        el.set(fn, v[fn].text)
+                    elif v.get(fn) is not None and v.get(fn) is not NIL:
                         el.set(fn, to_text(S, a['type'], ft['attr'], v[fn]))
-                    elif a.get('use') == 'required':
+                    elif a.get('use') == 'required' and self.strict:
                         raise NotConformant('required attribute absent')
                 elif 'xmldata' in ft:
                     if simple is None:
                         raise SchemaMismatch('XmlData member but %s has no simpleContent' % tq)
-                    if v.get(fn) is not None:
+                    if isinstance(v.get(fn), Raw):
+                        el.text = v[fn].text
+                    elif v.get(fn) is not None and v.get(fn) is not NIL:
                         el.text = to_text(S, simple, ft['xmldata'], v[fn])
                 elif fn not in byname_e:
                     raise SchemaMismatch('field %s not published on %s' % (fn, tq))
@@ -413,12 +427,12 @@ class Wire(object):
     """Builds request documents for a method and decodes response documents,
     for XmlDocument / Soap11 / Soap12."""
 
-    def __init__(self, built, wsdl_bytes, rng=None):
+    def __init__(self, built, wsdl_bytes, rng=None, strict=True):
         self.built = built
         self.ir = built.ir
         self.wsdl = WsdlModel(wsdl_bytes)
         self.schema = Schema(self.wsdl.schemas)
-        self.codec = Codec(self.schema, self.ir, rng)
+        self.codec = Codec(self.schema, self.ir, rng, strict)
         self.nsmap = {'s%d' % i: n.get('targetNamespace') for i, n in enumerate(self.schema.nodes)}
         self.nsmap['xsi'] = XSI
 
@@ -440,6 +454,10 @@ class Wire(object):
             v = args[0]
             if v is None:
                 raise NotConformant('bare argument None')
+            from vflib.refval import NIL
+            if v is NIL:
+                root.set(Q(XSI, 'nil'), 'true')
+                return root
             self.codec.fill(root, tq, at, v)
             return root
         attrs, elems, simple = S.content(tq)
